@@ -105,8 +105,14 @@ def build_lean():
         lock.close()
 
 
-def grep_forbidden():
+def grep_forbidden(modules=None):
+    """forbidden tokens in the Lean sources (comments stripped).  `modules` restricts the scan to the given
+    module stems (e.g. ["Output", "Props.C09"]); a `sorry` elsewhere still cannot leak into a theorem of this
+    property unnoticed, because the audit lists `sorryAx` among the axioms of anything that depends on it."""
     hits = []
+    wanted = None
+    if modules is not None:
+        wanted = {os.path.join(LEAN, "FinamModel", *m.split(".")) + ".lean" for m in modules}
     for root, _d, files in os.walk(LEAN):
         if ".lake" in root:
             continue
@@ -114,6 +120,8 @@ def grep_forbidden():
             if not fn.endswith(".lean"):
                 continue
             path = os.path.join(root, fn)
+            if wanted is not None and path not in wanted:
+                continue
             src = open(path).read()
             # strip comments
             src_nc = re.sub(r"/-.*?-/", lambda m: "\n" * m.group(0).count("\n"), src, flags=re.S)
